@@ -10,7 +10,7 @@ use coap_lite::{create_notification, CoapRequest, Subject};
 use mccore::bfs::{self, Step};
 use mccore::{decode, guard, product, viol, Ctx, Json, Report};
 use refmodel::codec::{self, RefMsg};
-use refmodel::subject::{RefObserver, RefSubject};
+use refmodel::subject::RefSubject;
 use std::collections::BTreeMap;
 use std::fmt;
 
